@@ -71,7 +71,14 @@ def run(chk):
     gi = repo.func(V, "Bits.__getitem__", "C20.R1")
     chk.saw(gi)
     r = [n for n in own_nodes(gi.node) if isinstance(n, ast.Return)]
-    chk.check(len(r) == 1 and src(r[0].value) == "self.variable.od.decode_bits(self.raw, self._get_bits(key))", "R1", f"{V}:Bits.__getitem__ | field of the cached raw value", gi.loc(), f"{[src(x) for x in r]}")
+    fgi = ff_for(chk, gi, "C20.R1")
+    rv = src(r[0].value) if len(r) == 1 else ""
+    if len(r) == 1 and isinstance(r[0].value, ast.Call) and len(r[0].value.args) == 2 and isinstance(r[0].value.args[1], ast.Name):
+        # a local for the normalised key: it must be the normalisation of this call's key
+        d_ = fgi.raw_def_at(r[0].value.args[1].id, r[0])
+        if d_ is not None and src(d_) == "self._get_bits(key)":
+            rv = rv.replace(f", {r[0].value.args[1].id})", ", self._get_bits(key))")
+    chk.check(len(r) == 1 and rv == "self.variable.od.decode_bits(self.raw, self._get_bits(key))", "R1", f"{V}:Bits.__getitem__ | field of the cached raw value", gi.loc(), f"{[src(x) for x in r]}")
     si = repo.func(V, "Bits.__setitem__", "C20.R1")
     chk.saw(si)
     body = [src(s_) for s_ in si.node.body if not (isinstance(s_, ast.Expr) and isinstance(s_.value, ast.Constant))]
